@@ -240,6 +240,25 @@ Definition poll_once (epoll : bool) (s : state) (b : N) (cbs1 cbs2 : list script
       match do_exec s2 cbs2 with Some (s3, _) => Some s3 | None => None end
   end.
 
+(* One whole SelectServer iteration (SelectServer::RunOnce -> CheckForEvents -> Poller::Poll) as far as timers are
+   concerned: the loop callbacks run first (here: the timers they register), then the due timers, then either the
+   poller sleeps (nothing ready) or the ready descriptors' callbacks run (here: the timers THEY register; no sleep),
+   then the clock is read again and the due timers run. *)
+Definition reg3 := (bool * N * N)%type.      (* repeating?, interval, allocator hint *)
+Definition do_regs (s : state) (l : list reg3) : state :=
+  fold_left (fun s r => let '(rep, iv, h) := r in do_reg s rep iv h) l s.
+Definition runonce (epoll : bool) (s : state) (b : N) (loop_regs desc_regs : list reg3)
+                   (cbs1 cbs2 : list script) : option state :=
+  match do_exec (do_regs s loop_regs) cbs1 with
+  | None => None
+  | Some (s1, now1) =>
+      let s2 := match desc_regs with
+                | [] => do_advance s1 (poll_sleep epoll s1 now1 b)
+                | _ => do_regs s1 desc_regs
+                end in
+      match do_exec s2 cbs2 with Some (s3, _) => Some s3 | None => None end
+  end.
+
 Inductive op :=
 | OReg (rep : bool) (iv h : N)
 | OCancel (h : N)
@@ -259,6 +278,14 @@ Fixpoint run (s : state) (ops : list op) : option state :=
   | [] => Some s
   | o :: r => match step s o with Some s' => run s' r | None => None end
   end.
+
+(* ... which is nothing but a particular history of the TimeoutManager *)
+Definition runonce_ops (epoll : bool) (sleep : N) (loop_regs desc_regs : list reg3) (cbs1 cbs2 : list script) : list op :=
+  map (fun r : reg3 => let '(rep, iv, h) := r in OReg rep iv h) loop_regs ++ [OExec cbs1] ++
+  match desc_regs with
+  | [] => [OAdvance sleep]
+  | _ => map (fun r : reg3 => let '(rep, iv, h) := r in OReg rep iv h) desc_regs
+  end ++ [OExec cbs2].
 End Model.
 
 (* SelectServer::Register{Single,Repeating}Timeout(unsigned int ms, ...) (common/io/SelectServer.cpp):
